@@ -556,7 +556,7 @@ func driver(seed uint64, n int, outV, outJSON string, _ []string) {
 				g := &bget{kind: "miss"}
 				bdesc := "BMiss"
 				if withProxy {
-					switch f := r.Intn(12); {
+					switch f := r.Intn(13); {
 					case f == 0:
 						g.kind, bdesc = "err", "BErr"
 					case f <= 2:
@@ -592,6 +592,15 @@ func driver(seed uint64, n int, outV, outJSON string, _ []string) {
 							if full > 20 {
 								g.delivered = full - 1
 							}
+						case 9:
+							if logical > 1 {
+								g.claimed = logical - 1
+							}
+						}
+						if g.claimed != logical && g.claimed >= 0 && r.Chance(60) {
+							// a complete, valid object under wrong size metadata, asked for with unknown size:
+							// nothing but the header check against the announced size can catch it
+							size, off = -1, 0
 						}
 						bdesc = fmt.Sprintf("BFound %s %s %s %s %d %s", CZ(g.claimed), CZ(g.full), CZ(g.delivered), CB(g.berr), g.cid, CZ(g.logical))
 					}
